@@ -29,11 +29,6 @@ from .base import FEMSurvey, LargeLoopGroundEMSurvey, MovingLoopGroundEMSurvey
 
 class MovingLoopGroundFEMSurvey(FEMSurvey, MovingLoopGroundEMSurvey):
     @property
-    def default_input_types(self) -> list[str]:
-        """Choice of survey creation types."""
-        return self.__INPUT_TYPE
-
-    @property
     def default_metadata(self) -> dict:
         """
         Default dictionary of metadata for MovingLoopGroundFEMSurvey entities.
